@@ -63,7 +63,11 @@ Record senv := mkSEnv {
   se_static : bool;
   se_depth : nat;
   se_block : blockctx;
+  se_bal : list (Z * term);      (* balances changed by value transfers so far; others: TVar (VBal a) *)
 }.
+
+Definition sbal (se : senv) (a : Z) : term :=
+  match alookup a (se_bal se) with Some t => t | None => TVar (VBal a) end.
 
 Definition cond := (term * bool)%type.     (* (c, true): c <> 0 ; (c, false): c = 0 *)
 Definition jid := (nat * list Z)%type.
@@ -76,6 +80,7 @@ Record sstate := mkSS {
   ss_tstore : list (term * term);
   ss_path : list cond;
   ss_visits : list (jid * (Z * Z));
+  ss_ret : list bterm;            (* returndata of the last sub-call *)
 }.
 
 Inductive leaf_kind :=
@@ -108,9 +113,9 @@ Definition smwrite (m : list bterm) (off : nat) (bs : list bterm) : list bterm :
   firstn off m1 ++ bs ++ skipn need m1.
 
 Definition set_stack (s : sstate) (st : list term) (pc : nat) : sstate :=
-  mkSS pc st (ss_mem s) (ss_store s) (ss_tstore s) (ss_path s) (ss_visits s).
+  mkSS pc st (ss_mem s) (ss_store s) (ss_tstore s) (ss_path s) (ss_visits s) (ss_ret s).
 Definition set_mem (s : sstate) (m : list bterm) : sstate :=
-  mkSS (ss_pc s) (ss_stack s) m (ss_store s) (ss_tstore s) (ss_path s) (ss_visits s).
+  mkSS (ss_pc s) (ss_stack s) m (ss_store s) (ss_tstore s) (ss_path s) (ss_visits s) (ss_ret s).
 
 Section Step.
 Variable mem_limit : Z.
@@ -132,14 +137,14 @@ Definition senv_value (s : sstate) (g : envop) : option term :=
   | ECallvalue => Some (se_value se)
   | ECalldatasize => Some (TConst (Z.of_nat (length (se_data se))))
   | ECodesize => Some (TConst (Z.of_nat (length (se_code se))))
-  | EReturndatasize => Some (TConst 0)                 (* no sub-call in the subset *)
+  | EReturndatasize => Some (TConst (Z.of_nat (length (ss_ret s))))
   | ECoinbase => Some (TConst (b_coinbase (se_block se)))
   | ETimestamp => Some (TConst (b_timestamp (se_block se)))
   | ENumber => Some (TConst (b_number (se_block se)))
   | EDifficulty => Some (TConst (b_difficulty (se_block se)))
   | EGaslimit => Some (TConst (b_gaslimit (se_block se)))
   | EChainid => Some (TConst (b_chainid (se_block se)))
-  | ESelfbalance => Some (TVar (VBal (se_this se)))
+  | ESelfbalance => Some (sbal se (se_this se))
   | EBasefee => Some (TConst (b_basefee (se_block se)))
   | EPc => Some (TConst (Z.of_nat (ss_pc s)))
   | EMsize => None                                      (* halmos' MSIZE ignores expansion by reads: not modelled *)
@@ -171,7 +176,7 @@ Definition sstep_i (i : instr) (s : sstate) : sres :=
   | IEnv g => match senv_value s g with Some t => snext s (t :: st) | None => sstuck ST_UNMODELLED end
   | IBalance =>
       match st with
-      | TConst a :: r => snext s (TVar (VBal (a mod 2 ^ 160)) :: r)
+      | TConst a :: r => snext s (sbal se (a mod 2 ^ 160) :: r)
       | _ :: _ => sstuck ST_SYMBOLIC
       | [] => shalt H_UNDERFLOW
       end
@@ -217,7 +222,7 @@ Definition sstep_i (i : instr) (s : sstate) : sres :=
       | k :: v :: r =>
           if se_static se then shalt H_STATIC
           else if (1024 <? length r)%nat then shalt H_OVERFLOW
-          else SNext (mkSS (S pc) r (ss_mem s) ((k, v) :: ss_store s) (ss_tstore s) (ss_path s) (ss_visits s))
+          else SNext (mkSS (S pc) r (ss_mem s) ((k, v) :: ss_store s) (ss_tstore s) (ss_path s) (ss_visits s) (ss_ret s))
       | _ => shalt H_UNDERFLOW
       end
   | ITstore =>
@@ -225,7 +230,7 @@ Definition sstep_i (i : instr) (s : sstate) : sres :=
       | k :: v :: r =>
           if se_static se then shalt H_STATIC
           else if (1024 <? length r)%nat then shalt H_OVERFLOW
-          else SNext (mkSS (S pc) r (ss_mem s) (ss_store s) ((k, v) :: ss_tstore s) (ss_path s) (ss_visits s))
+          else SNext (mkSS (S pc) r (ss_mem s) (ss_store s) ((k, v) :: ss_tstore s) (ss_path s) (ss_visits s) (ss_ret s))
       | _ => shalt H_UNDERFLOW
       end
   | ISha3 =>
@@ -297,8 +302,10 @@ Definition sstep_i (i : instr) (s : sstate) : sres :=
       match st with
       | TConst d :: TConst o :: TConst n :: r =>
           if (d <? 0) || (o <? 0) || (n <? 0) then sstuck ST_SYMBOLIC
-          else if 0 <? o + n then shalt H_OOB          (* no sub-call in the subset: returndata is empty *)
-          else snext s r
+          else if Z.of_nat (length (ss_ret s)) <? o + n then shalt H_OOB
+          else if s_oog_range d n then shalt H_OOG
+          else if n =? 0 then snext s r
+          else snext (set_mem s (smwrite (ss_mem s) (Z.to_nat d) (smread (ss_ret s) (Z.to_nat o) (Z.to_nat n)))) r
       | [_; _] | [_] | [] => shalt H_UNDERFLOW
       | _ => sstuck ST_SYMBOLIC
       end
@@ -370,9 +377,9 @@ Fixpoint sexec (fuel : nat) (s : sstate) : list leaf * bool :=
             let vis_f := if d_symbolic d then (j, (vt, vf + 1)) :: ss_visits s else ss_visits s in
             (* the taken side resumes after the JUMPDEST (pc = target + 1) *)
             let s_t := mkSS (S (Z.to_nat target)) rest (ss_mem s) (ss_store s) (ss_tstore s)
-                            ((c, true) :: ss_path s) vis_t in
+                            ((c, true) :: ss_path s) vis_t (ss_ret s) in
             let s_f := mkSS (S (ss_pc s)) rest (ss_mem s) (ss_store s) (ss_tstore s)
-                            ((c, false) :: ss_path s) vis_f in
+                            ((c, false) :: ss_path s) vis_f (ss_ret s) in
             let r1 := if d_follow_true d then sexec f s_t else ([], false) in
             let r2 := if d_follow_false d then sexec f s_f else ([], false) in
             (fst r1 ++ fst r2, d_logged d || snd r1 || snd r2)
@@ -380,4 +387,4 @@ Fixpoint sexec (fuel : nat) (s : sstate) : list leaf * bool :=
   end.
 End Step.
 
-Definition init_sstate : sstate := mkSS 0 [] [] [] [] [] [].
+Definition init_sstate : sstate := mkSS 0 [] [] [] [] [] [] [].
